@@ -20,6 +20,9 @@ checks = {
  "C03": ("model_checking", "bounded-exhaustive proto-event alphabet x all room versions built with the real EventBuilder; explicit-state search over edit sequences (SetUnsigned, SetUnsignedField, Sign, Redact, three re-parse paths, repeated accessors, builder reuse) with accessor-by-accessor comparison after every transition; hashed IDs compared with an independent reference (refevent); one-field differential pairs",
          "Every proto-event of the alphabet is built and driven through every edit sequence up to the depth bound on the real code; identity is compared with a reference hash computed from independent redaction/canonical-JSON code.",
          "sha256/ed25519 trusted; contents limited to the menu", "4/C03"),
+ "C04": ("model_checking", "bounded-exhaustive product of built events x room versions x every single and pair of tamperings, parsed as untrusted input on the real code with interleaved genuine/tampered histories, against a reference content hash and reference redaction",
+         "Every (event, tampering set) of the alphabet is parsed by the real NewEventFromUntrustedJSON; the verdict redacted/intact, the surfaced JSON and every accessor are compared with refevent/refredact; genuine and tampered copies alternate in one process so state carried between parses is exercised.",
+         "sha256/ed25519 trusted; static verifier for signature verdicts; room version 8's specified redaction gap (join_authorised_via_users_server) is not judged", "4/C04"),
 }
 pending = {}
 props = [json.loads(l) for l in open('/verif/properties.jsonl')]
